@@ -51,7 +51,7 @@ func ints(b []byte) []int {
 }
 
 // tap is installed in the carrier; it runs under the direction's mutex.
-func (r *recorder) tap(withData bool) func(int, *wireMsg) {
+func (r *recorder) tap(withData, record bool) func(int, *wireMsg) {
 	return func(from int, m *wireMsg) {
 		if m.Kind == "hb" {
 			return
@@ -62,7 +62,9 @@ func (r *recorder) tap(withData bool) func(int, *wireMsg) {
 		}
 		r.mu.Lock()
 		rec["cid"] = r.cid
-		r.recs = append(r.recs, rec)
+		if record {
+			r.recs = append(r.recs, rec)
+		}
 		switch m.Kind {
 		case "data":
 			r.dataMsgs++
